@@ -478,6 +478,13 @@ def r5_model(check, prog):
                 isinstance(x[1][1], tuple) and x[1][1][0] == 'attr' and \
                 x[1][1][2] == 'construct_mapping':
             fields_reads.add(x[2][1])
+        # fields.get('key'[, default]) reads the key too
+        if x[0] == 'call' and isinstance(x[1], tuple) and x[1][0] == 'attr' and \
+                x[1][2] == 'get' and x[1][1][0] == 'call' and \
+                isinstance(x[1][1][1], tuple) and x[1][1][1][0] == 'attr' and \
+                x[1][1][1][2] == 'construct_mapping' and x[2] and \
+                x[2][0][0] == 'const':
+            fields_reads.add(x[2][0][1])
     # keys written by Model._iteritems
     wq = MODEL + '._iteritems'
     wit = Interp(prog, max_depth=1)
@@ -533,8 +540,14 @@ def r5_model(check, prog):
             while t[0] == 'mut' and t[2] == 'update':
                 upds.append(t[3][0])
                 t = t[1]
-            okf = t[0] == 'dict' and dict((k[1], x) for k, x in t[1]) == {
-                'scatterer': scat, 'theory': F('theory')} and \
+            lit = dict((k[1], x) for k, x in t[1]) if t[0] == 'dict' else {}
+            # further saved fields may be handed over under their own name
+            extra_ok = all(
+                x == F(k) or (x[0] == 'call' and x[1] == ('attr', fterm, 'get') and
+                              x[2] and x[2][0] == ('const', k))
+                for k, x in lit.items() if k not in ('scatterer', 'theory'))
+            okf = t[0] == 'dict' and lit.get('scatterer') == scat and \
+                lit.get('theory') == F('theory') and extra_ok and \
                 sorted(show(u) for u in upds) == sorted(show(intern(
                     ('call', rm, (('idx', F('_maps'), ('const', k)), F('_parameters')),
                      ()))) for k in ('optics', 'model'))
@@ -624,6 +637,7 @@ def r5_model(check, prog):
                           '', prog.loc(owner, ifd),
                           fail_detail='from_yaml passes %s= which %s.__init__ does '
                           'not accept' % (key, short))
+        supplied = set(kw_literal)
         for mname in splat_maps:
             if mname not in mk:
                 check.bad('R5-ctor-accepts', '%s maps[%s]' % (short, mname),
@@ -642,6 +656,7 @@ def r5_model(check, prog):
                 else:
                     raise AnalysisError('cannot resolve the keys of %s._maps[%r]: %s'
                                         % (short, mname, show(arg)[:160]))
+            supplied |= set(keys)
             for key in keys:
                 check.require(
                     key in params, 'R5-ctor-accepts',
@@ -650,4 +665,13 @@ def r5_model(check, prog):
                     fail_detail='Model.from_yaml passes maps[%r] key %r to '
                     '%s(**kwargs), but %s.__init__ has no such parameter: '
                     'loading raises TypeError' % (mname, key, short, short))
+        # the converse: every constructor argument comes back on load
+        for p_ in sorted(params):
+            check.require(p_ in supplied, 'R5-model-argument-restored',
+                          '%s.__init__(%s)' % (short, p_),
+                          'from_yaml hands the saved value back to the constructor',
+                          prog.loc(owner, ifd),
+                          fail_detail='%s(%s=...) is neither written by Model._iteritems '
+                          'nor passed by Model.from_yaml: a reloaded model silently '
+                          'uses the default' % (short, p_))
     check.floor('Model subclasses', len(models), 3)
